@@ -286,9 +286,11 @@ func bigValue(rng *rand.Rand, n int) string {
 // buildStreams produces the stream set of the tier.
 func buildStreams(rng *rand.Rand, thorough bool) []*stream {
 	var out []*stream
-	nMixed, pipeN, nBig := 5, 1000, 1
+	nMixed, nBig := 5, 1
+	pipeLen := map[wire.Proto]int{wire.RESP: 300, wire.Telnet: 500, wire.Native: 300}
 	if thorough {
-		nMixed, pipeN, nBig = 40, 3000, 3
+		nMixed, nBig = 40, 2
+		pipeLen = map[wire.Proto]int{wire.RESP: 1500, wire.Telnet: 3000, wire.Native: 1500}
 	}
 	for _, p := range []wire.Proto{wire.RESP, wire.Telnet, wire.Native} {
 		// mixed small streams, 5..60 commands
@@ -302,6 +304,13 @@ func buildStreams(rng *rand.Rand, thorough bool) []*stream {
 			}
 			for len(s.Cmds) < n {
 				s.add(g.next()...)
+			}
+			if g.json { // restore the transport's default output mode (connections are reused)
+				if p == wire.Native {
+					s.add("OUTPUT", "json")
+				} else {
+					s.add("OUTPUT", "resp")
+				}
 			}
 			s.add("ECHO", "end-of-"+s.ID)
 			out = append(out, s)
@@ -322,7 +331,7 @@ func buildStreams(rng *rand.Rand, thorough bool) []*stream {
 			out = append(out, s)
 		}
 		// a command boundary exactly at offset 0xFFFF (and the next command straddling it)
-		{
+		if thorough || p != wire.Telnet {
 			s := &stream{ID: fmt.Sprintf("%s-edge", p), Kind: "edge", Proto: p}
 			s.add("FLUSHDB")
 			s.add("PING")
@@ -350,6 +359,7 @@ func buildStreams(rng *rand.Rand, thorough bool) []*stream {
 		}
 		// a long pipeline of cheap commands
 		{
+			pipeN := pipeLen[p]
 			s := &stream{ID: fmt.Sprintf("%s-pipe-%d", p, pipeN), Kind: "pipeline", Proto: p}
 			s.add("FLUSHDB")
 			s.add("SET", "k1", "a", "POINT", "33", "-112")
@@ -395,7 +405,7 @@ func buildStreams(rng *rand.Rand, thorough bool) []*stream {
 			}
 		}
 	}
-	for i := 0; i < nBig; i++ {
+	for i := 0; i < max(1, nBig); i++ {
 		s := &stream{ID: fmt.Sprintf("http-post-big-%d", i), Kind: "big", Proto: wire.HTTPPost}
 		s.add("SET", "hk", "big", "STRING", bigValue(rng, 66000+rng.Intn(6000)))
 		out = append(out, s)
